@@ -100,11 +100,34 @@ def c12_post(configs):
     return out
 
 
+def c08_runs(tier):
+    runs = [("main", ["--mode", "grid", "--mtu", str(m)]) for m in (MTUS_T if tier == "thorough" else [576, 1500, 9216])]
+    if tier == "thorough":
+        for m in (576, 1500, 9216):
+            step = 32769 // 16 + 1
+            for i in range(16):
+                runs.append(("main", ["--mode", "full", "--mtu", str(m), "--a", str(i * step), "--b", str(min(32769, (i + 1) * step))]))
+    else:
+        # quick: the full (size, offset) relation for a band of sizes around one and two payloads
+        for m in (576, 1500):
+            runs.append(("main", ["--mode", "full", "--mtu", str(m), "--a", str(m - 34 - 8), "--b", str(m - 34 + 8)]))
+            runs.append(("main", ["--mode", "full", "--mtu", str(m), "--a", str(2 * (m - 34) - 4), "--b", str(2 * (m - 34) + 4)]))
+    return runs
+
+
 EMIT = {"main": {"sources": MC + ["checks/emit.c"], "modes": ["c06", "c10"]}}
 OBS = {"main": {"sources": MC + ["checks/obs.c"], "modes": ["c07", "c19"]}}
 PROTO = {"main": {"sources": MC + ["checks/proto.c"], "modes": ["c02", "c03", "c09"]}}
 
 PROPS = {
+    "C08": {
+        "engine": "sweep",
+        "builds": {"main": {"sources": MC + ["checks/c08.c"], "modes": ["grid", "full"]}}, "runs": c08_runs, "level": "exploration",
+        "timeout": {"quick": 900, "thorough": 3400},
+        "technique": "exhaustive (size, offset) enumeration through the real QueryLargeTlv request path against the chunk relation and end-to-end reassembly (thorough: all 2^31 (size, offset) pairs per MTU for the icon path)",
+        "rule": "one evaluation = one QueryLargeTlv frame handled by the real parseFrame with a position-coded platform blob; distinct_nontrivial counts distinct (payload length, more flag, type) outcomes on a 1/1024 subsample of the calls",
+        "assumptions": ["hardware id: even sizes only (UCS-2)", "known large properties: icon 0x0E, friendly name 0x11, hardware id 0x13; every other type must yield an empty payload"],
+    },
     "C12": {
         "builds": {"main": {"sources": MC + ["mc/darwin.c", "checks/c12.c"], "modes": ["narrow", "wide", "start", "map", "flow"]}},
         "runs": c12_runs, "post": c12_post, "level": "model_checking", "parallel": 8,
